@@ -97,7 +97,7 @@ def _chunk_groupby_args(
     kwargs = locals().copy()
     del kwargs["n_chunks"]
 
-    if isinstance(values, NumbaList):
+    if isinstance(values, (list, tuple, NumbaList)):
         if mask is not None and mask.dtype.kind in "ui":
             assert isinstance(
                 values, np.ndarray
